@@ -287,6 +287,7 @@ func c31Run(r *mon.Run, idx int, base time.Time) {
 				cur, live := model.Live(rk(k), t0, t1)
 				if live == ref.Unknown {
 					unknown = true
+					delete(got, k) // present or absent, both are right: it is not an unknown revocation
 					continue
 				}
 				if live == ref.Yes {
@@ -352,11 +353,17 @@ func checkC31(r *mon.Run) {
 	r.Rule = "one history = 14-45 operations (insert with issue time older/equal/newer than the previous one and lifetimes 0 s - hours, " +
 		"get, get-all, delete-expired) over 1-3 interfaces on a 6-12 s logical timeline mapped to real seconds, executed on its own " +
 		"memrevcache at >= 250 ms from second boundaries (thorough: >= 15 ms), every call time-bracketed and compared with the " +
-		"reference cache; hundreds of histories run in parallel; class = operation/state of the stored revocation/relation/outcome"
+		"reference cache; hundreds of histories run in parallel; class = operation/state of the stored revocation/relation/outcome. " +
+		"Concurrent phase: 4 (thorough 14) rounds x 3 (4) caches; one cache is pre-filled with 150-400 live revocations and then worked on by " +
+		"5-7 inserters (110-200 insertions each: expiring at the round's whole second E, already expired, comfortably live; each key written " +
+		"by one goroutine), 2-3 readers (get/get-all) and 2-3 cleaners (delete-expired), all paced (not-earlier-than schedule) over E-50 ms .. E+20 ms, three fifths of the operations within E-7 ms .. E+3.5 ms; every call is " +
+		"recorded with its clock readings before/after and judged after the join only when the expiration lies clearly outside the bracket; " +
+		"then a final sweep (get of every key, get-all, delete-expired, again) after E"
 	r.Assumptions = []string{
 		"real clock with 1 s revocation granularity; a call whose reference verdict differs between the instants before and after it is inconclusive, and an inconclusive insert abandons the rest of that history",
 		"a stored revocation may outlive its expiry by at most the duration of the Insert call that stored it (the cache arms its own timer inside the call)",
 		"'newer' is a strictly later issue timestamp; the number returned by DeleteExpired is recorded, not judged",
+		"concurrent phase: a verdict needs the monotonic and the wall clock reading to agree, with a 1 ms guard around every expiration; calls in progress at the expiration instant are unjudged; a revocation counts as 'must be gone' only after expiration + guard + duration of the Insert that stored it",
 	}
 	rounds, per := 1, 700
 	if r.Thorough() {
@@ -364,9 +371,16 @@ func checkC31(r *mon.Run) {
 	}
 	if f := r.ReplayFile(); f != "" {
 		var rp struct {
-			Witness struct{ Cache int }
+			Witness struct {
+				Cache int
+				Phase string
+			}
 		}
 		if b, err := os.ReadFile(f); err == nil && json.Unmarshal(b, &rp) == nil {
+			if rp.Witness.Phase == "concurrent" { // the exposure depends on scheduling: re-run the whole phase
+				c31Concurrent(r)
+				return
+			}
 			base := time.Now().Truncate(time.Second).Add(2 * time.Second)
 			c31Run(r, rp.Witness.Cache, base)
 			return
@@ -384,7 +398,11 @@ func checkC31(r *mon.Run) {
 		}
 		wg.Wait()
 	}
-	r.Require(int64(rounds*per*8), 25, "insert", "insert_accepted", "insert_rejected", "get", "getall", "delete_expired")
+	c31Concurrent(r)
+	r.Require(int64(rounds*per*8+c31cMinEvals(r)), 36, "insert", "insert_accepted", "insert_rejected", "get", "getall", "delete_expired",
+		"concurrent_insert", "concurrent_insert_accepted", "concurrent_insert_rejected", "concurrent_get", "concurrent_getall",
+		"concurrent_delete_expired", "concurrent/insert-across-expiry-window", "concurrent/final-sweep")
+	r.RequireClasses(c31cRequired...)
 	r.RequireClasses(
 		"insert/empty/fresh/accepted=true",
 		"insert/empty/expired/accepted=false",
